@@ -24,6 +24,21 @@ static mut HEADS: [[usize; CLASSES]; ALIGNS] = [[0; CLASSES]; ALIGNS];
 pub static REUSED: AtomicUsize = AtomicUsize::new(0);
 pub static QUARANTINED: AtomicUsize = AtomicUsize::new(0);
 
+/// blocks freed in quarantine mode (never reused), for use-after-free detection at hook points
+const MAX_FREED: usize = 8192;
+static mut FREED: [(usize, usize); MAX_FREED] = [(0, 0); MAX_FREED];
+static NFREED: AtomicUsize = AtomicUsize::new(0);
+
+/// is `addr` inside a block that was freed in quarantine mode?
+pub fn quarantined(addr: usize) -> bool {
+    if MODE.load(Ordering::Relaxed) != QUARANTINE {
+        return false;
+    }
+    let n = NFREED.load(Ordering::Acquire).min(MAX_FREED);
+    let f = unsafe { &*std::ptr::addr_of!(FREED) };
+    f[..n].iter().any(|(p, l)| addr >= *p && addr < *p + *l)
+}
+
 pub struct DetAlloc;
 
 pub fn set_mode(m: u8) {
@@ -105,6 +120,13 @@ unsafe impl GlobalAlloc for DetAlloc {
                 if l.size() <= 1 << 16 {
                     std::ptr::write_bytes(p, 0xDD, l.size());
                     QUARANTINED.fetch_add(1, Ordering::Relaxed);
+                    lock();
+                    let n = NFREED.load(Ordering::Relaxed);
+                    if n < MAX_FREED {
+                        (*std::ptr::addr_of_mut!(FREED))[n] = (p as usize, l.size());
+                        NFREED.store(n + 1, Ordering::Release);
+                    }
+                    unlock();
                     return;
                 }
                 System.dealloc(p, l)
